@@ -594,6 +594,9 @@ func cmdReplay(args []string) int {
 	if len(args) > 1 && args[1] == "-v" {
 		a = append(a, "-v2")
 	}
+	if v := os.Getenv("BBSIM_REPLAY_MAXSTEPS"); v != "" { // development aid: replay a budget violation with a larger budget
+		a = append(a, "-maxsteps", v)
+	}
 	cmd := exec.Command(bin, a...)
 	rl := filepath.Join(scratch, "race.replay")
 	cmd.Env = append(os.Environ(), "GORACE=halt_on_error=0 log_path="+rl, "BBSIM_RACELOG="+rl)
